@@ -87,6 +87,24 @@ fn item_sequences(g: &mut Gen, st: &mut Stats) -> CaseResult {
         Ok(t) => t,
         Err(e) => fail!("tokenise-failed", "tokenising the well-formed sequence {} failed: {}", short_hex(&input), e)
     };
+    // a tokenizer starts where its decoder stands: after j items, every constructor yields the tokens of the rest
+    if items.len() >= 2 {
+        let j = 1 + g.below(items.len() - 1);
+        let mut start = 0usize;
+        for i in &items[.. j] { start += i.encode().len() }
+        let mut rest = Vec::new();
+        for i in &items[j ..] { flatten(i, &mut rest) }
+        let at = |d: &mut Decoder| d.set_position(start);
+        let mut d1 = Decoder::new(&input); at(&mut d1);
+        let mut d2 = Decoder::new(&input); at(&mut d2);
+        let mut d3 = Decoder::new(&input); at(&mut d3);
+        for (what, toks) in [("Tokenizer::from(Decoder)", Tokenizer::from(d1).collect::<Result<Vec<_>, _>>()), ("Decoder::tokens", d2.tokens().collect::<Result<Vec<_>, _>>()), ("Tokenizer::from(&mut Decoder)", Tokenizer::from(&mut d3).collect::<Result<Vec<_>, _>>())] {
+            match toks {
+                Ok(ts) => { let got: Vec<MT> = ts.iter().map(of_token).collect(); ensure!(got == rest, "tokens-from-position", "{} on a decoder standing at offset {} of {} yields {} tokens starting {:?}; the rest of the input has {} heads starting {:?}", what, start, short_hex(&input), got.len(), got.first(), rest.len(), rest.first()) }
+                Err(e) => fail!("tokenise-failed", "{} from offset {} of {} failed: {}", what, start, short_hex(&input), e)
+            }
+        }
+    }
     // every way of obtaining a tokenizer sees the same tokens
     {
         let same = |a: &[Token], b: &[Token]| a.len() == b.len() && a.iter().zip(b.iter()).all(|(x, y)| <crate::registry::ETok as crate::registry::Entry>::same(x, y));
